@@ -621,9 +621,110 @@ def contracts(reg):
     return out
 
 
+# =====================================================================================
+# BOUNDED stand-ins (DESIGN 2.8) and document-level generator: run natively on the real code
+# (replay/C02.py under /venv/bin/python).  A counterexample is a refuted obligation with its
+# witness; an exhaustive run without counterexample is reported as `bounded-ok`, never as proved.
+# =====================================================================================
+FUNC_OF_CHECK = {
+    "docx.table": "docx_extractor.py::_extract_table_text",
+    "odt.body": "odt_extractor.py::_extract_full_text",
+    "html.extract": "html_extractor.py::_HtmlTextExtractor.extract",
+    "ods.sheet": "ods_extractor.py::_extract_sheet",
+    "xlsx.format": "xlsx_extractor.py::_format_sheet_as_text",
+    "xls.format": "xls_extractor.py::_format_sheet_as_text",
+    "odf.element_text": "_shared.py::element_text",
+}
+
+
+def run_native(repo, *args, timeout=900):
+    import json
+    import os
+    import subprocess
+    root = os.path.dirname(os.path.dirname(os.path.abspath(__file__)))
+    p = subprocess.run(["/venv/bin/python", os.path.join(root, "replay", "C02.py")] + list(args), capture_output=True, text=True,
+                       timeout=timeout, cwd=root, env=dict(os.environ, VERIF_REPO=repo))
+    lines = [l for l in p.stdout.splitlines() if l.startswith("{")]
+    if not lines:
+        raise RuntimeError("native replayer produced no result: " + (p.stderr or p.stdout)[-800:])
+    return json.loads(lines[-1])
+
+
+def _ob(oid, ok, checked, witness, kind="bounded"):
+    w = None
+    if witness is not None:
+        w = {k: witness.get(k) for k in ("target", "inputs", "expected", "observed", "kinds", "lost", "duplicated", "leaked", "merged", "error") if witness.get(k) is not None}
+    return {"id": oid, "kind": kind, "status": "bounded-ok" if ok else "refuted", "vcs": checked, "seconds": 0.0, "backends": {"native-small-scope": 1},
+            "witness": w, "reason": "" if ok else "counterexample found by exhaustive small-scope run on the real code: " + ",".join((witness or {}).get("kinds", [])),
+            "loc": "replay/C02.py"}
+
+
+def bounded_native(repo, tier):
+    res = run_native(repo, "bounded")
+    obls, errors = [], []
+    for check, fn in FUNC_OF_CHECK.items():
+        for case, r in res.get(check, {}).items():
+            if case == "<error>":
+                errors.append({"function": fn, "error": r.get("error", "")[-600:]})
+                continue
+            obls.append(_ob(f"C02/{fn}/bounded#tokens[{case}]", r["failures"] == 0, r["checked"], r["witness"]))
+    for fmt, feats in res.get("documents", {}).items():
+        for feat, r in feats.items():
+            if r.get("unsupported"):
+                continue
+            obls.append(_ob(f"C02/api::{fmt}.get_full_text/document#tokens[{feat}]", bool(r.get("ok")), 1, None if r.get("ok") else r, kind="document"))
+    m = res.get("model", {})
+    obls.append(_ob("C02/etree_model::Element/bounded#agrees-with-xml.etree", not m.get("mismatches"), m.get("trees", 0),
+                    {"target": "xml.etree.ElementTree", "inputs": str(m.get("mismatches"))[:500], "kinds": ["model"]} if m.get("mismatches") else None))
+    return {"obligations": obls, "functions": [], "errors": errors}
+
+
+EXTRA = [bounded_native]
+
+
+def known_findings(kf, violations, repo, tier):
+    """Recorded genuine defects: every witness is re-run natively (one batch); a finding that still fails prints
+    KNOWN-FINDING and covers exactly the obligation ids listed in it."""
+    vio_ids = {v["id"] for v in violations}
+    out = []
+    try:
+        res = run_native(repo, "bounded", "--with-witness-checks")
+    except Exception as e:  # noqa
+        return [{"finding": f["id"], "still_fails": False, "line": f"{f['id']}: replay failed: {e}", "covers": []} for f in kf]
+    for f in kf:
+        w = f.get("witness", {})
+        rec = None
+        if "check" in w:
+            rec = res.get(w["check"], {}).get(w["case"])
+            still = bool(rec and rec.get("failures"))
+            obs = (rec or {}).get("witness")
+        else:
+            rec = res.get("documents", {}).get(w.get("format"), {}).get(w.get("feature"))
+            still = bool(rec) and rec.get("ok") is False
+            obs = rec
+        covers = [o for o in f.get("covers", [f["obligation"]]) if o in vio_ids] if still else []
+        out.append({"finding": f["id"], "still_fails": still, "line": f"{f['id']}: {f['what']}", "covers": covers,
+                    "witness_replay": {k: (obs or {}).get(k) for k in ("inputs", "expected", "observed", "kinds")} if obs else None})
+    return out
+
+
+REPLAY_UNKNOWN = True
+
 TRUSTED = ["zip / XML / OLE / PDF parsing (bytes -> tree) is outside every contract; the obligations are about the library's own walkers"]
 ASSUMED_MODELS = X.ASSUMED_MODELS
 ASSUMPTIONS = ["PY-STR", "TREE-FINITE", "WS-CLASS: str.strip, str.split, \\s and str.isspace agree on the whitespace class",
                "DT-TYPED: list[str] fields / parameters hold str items",
                "partial correctness: termination of the recursive walkers is C01's obligation"]
-BOUNDED = []
+BOUNDED = [
+    "docx _extract_table_text: all tables with <= 2 rows x <= 2 cells, cell content out of {p, p p, sdt(p), p + nested 1x1 table, nested 1x2 table}, "
+    "rows / cells optionally inside content controls (replay/c02_trees.py::gen_docx_tables)",
+    "odt _extract_full_text: office:text with <= 2 blocks out of 19 constructs (paragraph, heading, span, s/tab/line-break, note, annotation, list, nested list, "
+    "heading in list, list-header, table, nested table, heading in cell, list in cell, header rows, section, tracked deletion, text box, table in list)",
+    "html _HtmlTextExtractor.extract: body with <= 2 blocks out of 17 constructs (gen_html_bodies)",
+    "ods _extract_sheet text / xlsx, xls _format_sheet_as_text: all grids with <= 3 rows x <= 3 cells (ragged), cells out of {token, empty, two words}; ods also repeated rows / cells",
+    "document level (replay/c02_docs.py): 19 flow features x {docx, odt, html, rtf, txt}, 8 deck features x {pptx, odp}, 8 workbook features x {xlsx, ods} "
+    "through the public read_* entry points and get_full_text()",
+    "etree model validation: 478 trees (<= 3 levels) against xml.etree",
+    "concrete validation of the proved ODF contract: 1640 paragraphs (odf.element_text)",
+    "a bounded run without counterexample is reported with status bounded-ok and is never counted as discharged",
+]
